@@ -13,7 +13,7 @@
 //!      commit + update_heads per exchange (aranya-tcp-syncer `sync`/`dispatch`)
 //!   D  one response per session against a transaction kept open across exchanges, flushed after
 //!      every exchange and advertised through `Transaction::session_heads`; commit + update_heads
-//!      at the end (testing/dsl.rs `sync`)
+//!      when an exchange received nothing new and at the end (testing/dsl.rs `sync` + Sync rule)
 //! bufs: responder poll buffers — always MAX_SYNC_MESSAGE_SIZE; a too-small first attempt followed
 //!   by a retry with the full size; or a ladder of growing sizes until the poll succeeds.
 //!
@@ -159,7 +159,8 @@ fn session(
     let graph = exp.graph;
     let mut requester = SyncRequester::new(graph, FixedRng(sid));
     let mut buf = vec![0u8; MAX_SYNC_MESSAGE_SIZE];
-    let heads = req.rep.head_ids().map(|h| h.len()).unwrap_or(0);
+    let head_ix: Vec<u64> = req.rep.head_ids().map(|h| h.iter().map(|id| exp.by_id.get(id).map(|&i| i as u64 + 1).unwrap_or(0)).collect()).unwrap_or_default();
+    let heads = head_ix.len();
     let polled = {
         let Replica { client, bufs, .. } = &mut req.rep;
         if use_trx_heads {
@@ -172,7 +173,7 @@ fn session(
         Ok((len, _)) => len,
         Err(e) => {
             log.ev(json!({"e": "error", "who": "requester.poll", "what": sync_err(&e)}));
-            log.ev(json!({"e": "close"}));
+            log.ev(json!({"e": "close", "inseg_ok": false, "straddled": false}));
             out.fatal = true;
             return out;
         }
@@ -189,13 +190,13 @@ fn session(
     };
     let cache: Vec<u64> = req.req_cache.heads().iter().map(|h| exp.by_id.get(&h.id).map(|&i| i as u64 + 1).unwrap_or(0)).collect();
     log.ev(json!({"e": "sample", "req": req.name, "resp": resp.name, "sid": (sid & 0xffff) as u64, "sample": sample,
-                  "heads": heads, "oneshot": oneshot, "cache": cache}));
+                  "heads": heads, "head_ix": head_ix, "oneshot": oneshot, "cache": cache}));
     let mut responder = SyncResponder::new();
     match SyncIncoming::decode(&buf[..len]) {
         Ok(SyncIncoming::Poll(p)) => {
             if let Err(e) = responder.receive(p) {
                 log.ev(json!({"e": "error", "who": "responder.receive", "what": sync_err(&e)}));
-                log.ev(json!({"e": "close"}));
+                log.ev(json!({"e": "close", "inseg_ok": false, "straddled": false}));
                 out.fatal = true;
                 return out;
             }
@@ -266,8 +267,61 @@ fn session(
         log.ev(json!({"e": "noend", "rounds": rounds, "ready": responder.ready()}));
         out.fatal = true;
     }
-    log.ev(json!({"e": "close"}));
+    let (inseg_ok, straddled) = if out.new_cmds == 0 && !out.received.is_empty() && !out.fatal {
+        dup_observations(exp, resp, &sample, &out.received)
+    } else {
+        (true, false)
+    };
+    log.ev(json!({"e": "close", "inseg_ok": inseg_ok, "straddled": straddled}));
     out
+}
+
+/// Storage-level observations about a session that delivered only duplicates (used by Trace_Sync
+/// to classify it): `inseg_ok` — no received command has, in its own responder segment, a sample
+/// address the responder can locate at or above it (the responder honoured in-segment coverage);
+/// `straddled` — every received command that is an ancestor-or-self of a located sample address
+/// lies in a responder segment that also holds, above it, a command no located sample address covers
+/// (the segment was queued from its uncovered head; the coverage arrived through a prior that points
+/// into the middle of the segment and was dropped by `TraversalQueue::push_covered`).
+fn dup_observations(exp: &Expanded, resp: &mut Peer, sample: &[u64], received: &[Address]) -> (bool, bool) {
+    use aranya_runtime::Storage as _;
+    let graph = exp.graph;
+    let committed = match resp.rep.walk() {
+        Ok(w) => w,
+        Err(_) => return (false, false),
+    };
+    let Replica { client, bufs, .. } = &mut resp.rep;
+    let Ok(st) = client.provider().get_storage(graph) else { return (false, false) };
+    let mut loc_of = |a: Address| st.get_location(a, &mut bufs.traversal.primary).ok().flatten();
+    // located sample addresses and what they cover
+    let located: Vec<usize> = sample.iter().filter(|&&s| s > 0).map(|&s| s as usize - 1).filter(|&i| committed.contains(&exp.cmds[i].cmd.id)).collect();
+    let mut covered: BTreeSet<usize> = BTreeSet::new();
+    for &l in &located {
+        covered.insert(l);
+        covered.extend(exp.ancestors(l));
+    }
+    let sample_locs: Vec<_> = located.iter().filter_map(|&i| loc_of(exp.cmds[i].addr)).collect();
+    // responder-side location of every committed command (for `straddled`)
+    let all_locs: Vec<(usize, aranya_runtime::Location)> = exp.cmds.iter().enumerate()
+        .filter(|(_, c)| committed.contains(&c.cmd.id))
+        .filter_map(|(i, c)| loc_of(c.addr).map(|l| (i, l))).collect();
+    let mut inseg_ok = true;
+    let mut straddled = true;
+    let mut any_covered = false;
+    for a in received {
+        let Some(&i) = exp.by_id.get(&a.id) else { return (false, false) };
+        let Some(l) = loc_of(*a) else { return (false, false) };
+        if sample_locs.iter().any(|s| s.segment == l.segment && s.max_cut >= l.max_cut) {
+            inseg_ok = false;
+        }
+        if covered.contains(&i) {
+            any_covered = true;
+            if !all_locs.iter().any(|(u, ul)| ul.segment == l.segment && ul.max_cut > l.max_cut && !covered.contains(u)) {
+                straddled = false;
+            }
+        }
+    }
+    (inseg_ok, straddled && any_covered)
 }
 
 fn commit(exp: &Expanded, p: &mut Peer, trx: Trx, received: Vec<Address>, log: &mut Log) -> bool {
@@ -343,7 +397,15 @@ fn sync_until(
             }
             missing = missing.saturating_sub(so.new_cmds);
             let _ = held_all;
-            open = Some((trx, recv));
+            if so.new_cmds == 0 {
+                // as the DSL's Sync rule: an exchange that received nothing ends the rule —
+                // commit, advance the peer cache; a later rule opens a new transaction
+                if !commit(exp, req, trx, recv, log) {
+                    return Err(());
+                }
+            } else {
+                open = Some((trx, recv));
+            }
         } else {
             if !commit(exp, req, trx, recv, log) {
                 return Err(());
@@ -435,7 +497,7 @@ pub fn run(args: &Args) {
             Ok(Err(())) => -1,
             Err(p) => {
                 log.ev(json!({"e": "error", "who": "panic", "what": p}));
-                log.ev(json!({"e": "close"}));
+                log.ev(json!({"e": "close", "inseg_ok": false, "straddled": false}));
                 -2
             }
         };
